@@ -1018,7 +1018,12 @@ def render_two_pass(w, r):
             lp = cursor_init[0]
             if lp.kind != "range" or lp.hi is None:
                 unclear.append("the bounds of the cursor initialisation loop %s are not size expressions" % lp.canon)
-            okc = (len(ce) == 1 and ce[0].sel_canon == "$0" and ce[0].start_canon == "%s[$0]" % P and ce[0].target.key == I and lp.kind == "range" and lp.lo == 0
+            def target_ok(c0):
+                if c0.target is not None:
+                    return c0.target.key == I
+                # index form: the positions subscript _image_idx through a reference to the selected entry
+                return all(e.kind == "sub" and strip(e.idx).get("k") == "Ref" and fk.cursor.get(strip(e.idx).get("d"), {}).get("via") == c0.arr.key for e in writes_f) and bool(writes_f)
+            okc = (len(ce) == 1 and ce[0].sel_canon == "$0" and ce[0].start_canon == "%s[$0]" % P and target_ok(ce[0]) and lp.kind == "range" and lp.lo == 0
                    and lp.hi is not None and pext is not None and fk.norm(lp.hi) + 1 == pext and ce[0].arr.extent is not None and fk.norm(ce[0].arr.extent) + 1 == pext)
             if not okc:
                 problems.append("the fill cursors are not initialised as cursor[i] = &_image_idx[_domain_ptr[i]] for all i in [0,%r)" % ((pext - 1) if pext is not None else None))
@@ -1045,7 +1050,15 @@ def render_two_pass(w, r):
         a = ia[0]
         xe = strip(getattr(a.arr, "extent_expr", None))
         okt = False
-        if xe is not None and xe.get("k") == "Ref" and xe.get("dk") == "local":
+        xsub = _subscript(xe) if xe is not None and xe.get("k") != "Cast" else None
+        if xsub is not None and r.role == "transposed":
+            # allocated directly with the terminal offset P[D] after the prefix sum
+            xa = fk.array_of(xsub[0])
+            xr = fk.rng(xsub[1])
+            if xa is not None and xa.key == P and isinstance(xr, Rng) and xr.exact is not None and pext is not None and fk.norm(xr.exact) + 1 == pext \
+                    and prefix is not None and a.seq > prefix[2].seq:
+                okt = True
+        elif xe is not None and xe.get("k") == "Ref" and xe.get("dk") == "local":
             d = xe["d"]
             if d in counters and a.seq > count_pass[2].seq:
                 # counter incremented exactly once per counted adjacency
@@ -1306,15 +1319,26 @@ def rule_permutation(w):
         fn = fns[0]
         fk = w.fk(fn)
         problems = []
+        unclear_r = []
         found = 0
+        # returned values: the expression of every return, both arms of a returned conditional expression
+        rvals = []
         for node, fields, arrs in fk.returns:
             if node is None:
                 continue
-            e = strip(node.get("e"))
-            while e is not None and e.get("k") in ("Construct", "TempObj") and len(e.get("a", [])) == 1 and strip(e["a"][0]).get("k") in ("Construct", "TempObj"):
-                e = strip(e["a"][0])
+            stack = [strip(node.get("e"))]
+            while stack:
+                e = stack.pop()
+                while e is not None and e.get("k") in ("Construct", "TempObj") and len(e.get("a", [])) == 1 and strip(e["a"][0]).get("k") in ("Construct", "TempObj", "Cond"):
+                    e = strip(e["a"][0])
+                if e is not None and e.get("k") == "Cond":
+                    stack += [strip(e["then"]), strip(e["else"])]
+                else:
+                    rvals.append(e)
+        for e in rvals:
             if e is None or e.get("k") not in ("Construct", "TempObj"):
-                problems.append("return value is not a constructed Permutation")
+                # a value built some other way (named local, helper): not read by this rule
+                unclear_r.append("returned value %s is not a directly constructed Permutation" % (render(e)[:50] if e is not None else "?"))
                 continue
             args = e.get("a", [])
             if len(args) == 0:
@@ -1332,6 +1356,9 @@ def rule_permutation(w):
             arr = fk.array_of(args[2])
             if arr is None or arr.key != "this._perm_pos":
                 problems.append("input array is %s, not the permute-position array" % render(args[2]))
+        if unclear_r and not problems:
+            ck.incomplete("E13.perm-dispatch", "Permutation::%s(): %s" % (name, "; ".join(unclear_r)))
+            continue
         if found != 1:
             problems.append("%d non-trivial returns" % found)
         ck.ob("E13.perm-dispatch", "Permutation::%s()" % name, not problems, "; ".join(problems) if problems else
@@ -2338,6 +2365,29 @@ def rule_iter_invariant(w):
                     d = _is_deref(rhs["a"][0])
                     if d is not None and d.get("k") == "Member":
                         inner.add(tgt["n"])
+        # member helpers of the iterator class that re-position an inner iterator on EVERY path (the shared 'seek the next non-empty list' search):
+        # a call of such a helper is a re-positioning; the invariant at the helper's exits is judged inside the helper
+        helpers = {}
+        for h in fns:
+            if h.cfg is None or h.d.get("ctor"):
+                continue
+            for fld0 in inner:
+                ok0, _ = h.cfg.must_pass(lambda x, f0=fld0: _modifies(x, inner)[1] == f0 and _modifies(x, inner)[0] in ("load", "reset"))
+                if ok0:
+                    helpers.setdefault(h.full, set()).add(fld0)
+
+        def mod(n, fn_=None):
+            k0, f0 = _modifies(n, inner)
+            if k0 is not None or n is None or n.get("k") not in ("MCall", "Call"):
+                return k0, f0
+            callee = w.findex.lookup(n)
+            if callee is not None and callee.full in helpers and callee.cls == cls and callee is not fn_:
+                o = strip(n.get("obj")) if n.get("obj") is not None else None
+                while o is not None and o.get("k") == "Un" and o.get("op") == "*":
+                    o = strip(o.get("e"))
+                if o is None or o.get("k") == "This":
+                    return "load by %s()" % callee.name, sorted(helpers[callee.full])[0]
+            return None, None
         for fn in fns:
             cfg = fn.cfg
             if cfg is None:
@@ -2345,10 +2395,15 @@ def rule_iter_invariant(w):
             for b in cfg.blocks.values():
                 for pos, eid in enumerate(b["el"]):
                     n = fn.by_id(eid)
-                    kind, fld = _modifies(n, inner)
+                    kind, fld = mod(n, fn)
                     if kind is None or kind == "reset":
                         continue          # a reset (value-initialised iterator) is the end state itself
-                    verdict = _escapes(fn, cfg, b, pos, fld, inner)
+                    if kind.startswith("load by "):
+                        key = "%s::%s(%s)/%s after %s" % (re.sub(r"<.*>::", "::", strip_ns(cls)), fn.name, ",".join(p["n"] for p in fn.params), fld, kind)
+                        obs.setdefault(key, []).append((True, "`%s` re-positions %s on every path; the 'dereferenceable or at end' state at its exits is judged inside the helper" % (
+                            render(n)[:60], fld), fn.file, n.get("l")))
+                        continue
+                    verdict = _escapes(fn, cfg, b, pos, fld, inner, mod)
                     key = "%s::%s(%s)/%s after %s" % (re.sub(r"<.*>::", "::", strip_ns(cls)), fn.name, ",".join(p["n"] for p in fn.params), fld, kind)
                     if verdict is None:
                         ck.incomplete("E7.iter-invariant", "%s: control flow after the modification not analysable" % key)
@@ -2420,12 +2475,13 @@ def _deref_test(fn, cond_id, fld):
     return 0
 
 
-def _escapes(fn, cfg, b, pos, fld, inner):
+def _escapes(fn, cfg, b, pos, fld, inner, mod=None):
     """True iff the function exit is reachable from the modification without passing a dereferenceability test (on its 'yes' edge)
     or a re-positioning of the same field"""
+    mod = mod or (lambda n, fn_=None: _modifies(n, inner))
     for eid in b["el"][pos + 1:]:
-        k, f = _modifies(fn.by_id(eid), inner)
-        if k in ("load", "reset") and f == fld:
+        k, f = mod(fn.by_id(eid), fn)
+        if k is not None and (k in ("load", "reset") or k.startswith("load by ")) and f == fld:
             return False
 
     def succs(blk):
@@ -2445,7 +2501,7 @@ def _escapes(fn, cfg, b, pos, fld, inner):
         if x == cfg.exit:
             return True
         blk = cfg.blocks[x]
-        if any(_modifies(fn.by_id(eid), inner)[1] == fld for eid in blk["el"]):
+        if any(mod(fn.by_id(eid), fn)[1] == fld for eid in blk["el"]):
             continue
         st.extend(succs(blk))
     return False
@@ -2622,13 +2678,43 @@ def rule_perm_fill(w):
 # move operations: every member is taken from the source before the source is reset; ctor and assignment transfer the same members
 # -------------------------------------------------------------------------------------------------
 
+class _OdSet(frozenset):
+    """decl ids that denote the moved-from object (the parameter and reference locals bound to it); `x == ids` reads as membership so that the
+    comparisons `strip(b).get("d") == od` of the rule keep working"""
+    def __eq__(self, other):
+        if isinstance(other, (set, frozenset)):
+            return frozenset.__eq__(self, other)
+        return other in self
+    def __ne__(self, other):
+        return not self.__eq__(other)
+    __hash__ = frozenset.__hash__
+
+
+def _other_aliases(fn, od):
+    ids = {od}
+    changed = True
+    while changed:
+        changed = False
+        for v in fn.nodes():
+            if v.get("k") == "Var" and v.get("ref") and v.get("init") is not None and v["d"] not in ids:
+                i0 = strip(v["init"])
+                for _ in range(3):
+                    if i0 is not None and i0.get("k") == "Call" and (i0.get("callee") or "") in ("std::move", "std::forward") and i0.get("a"):
+                        i0 = strip(i0["a"][0])
+                if i0 is not None and i0.get("k") == "Ref" and i0.get("d") in ids:
+                    ids.add(v["d"])
+                    changed = True
+    return ids
+
+
 def _other_fields(n, od):
-    """names of the fields of the moved-from parameter (decl id od) read below n"""
+    """names of the fields of the moved-from parameter (decl id od, or a set of aliasing decl ids) read below n"""
+    ids = od if isinstance(od, (set, frozenset)) else {od}
     out = []
     for x in walk(n):
         if x.get("k") == "Member" and x.get("b") is not None:
             b = strip(x["b"])
-            if b is not None and b.get("k") == "Ref" and b.get("d") == od:
+            if b is not None and b.get("k") == "Ref" and b.get("d") in ids:
                 out.append(x["n"])
     return out
 
@@ -2643,7 +2729,7 @@ def rule_moves(w):
         op = [p for p in fn.params if (fn.type(p["t"]) or "").rstrip().endswith("&&") and re.search(r"\b%s\b" % re.escape(cname), fn.type(p["t"]) or "")]
         if not cname or len(fn.params) != 1 or not op or not (fn.d.get("ctor") or fn.name == "operator="):
             continue
-        od = op[0]["d"]
+        od = _OdSet(_other_aliases(fn, op[0]["d"]))
         kind = "ctor" if fn.d.get("ctor") else "assign"
         key = "%s::%s(%s&&)" % (cname, fn.name, cname)
         # statements in execution order: constructor initialisers, then the body (the leading self-move check `if(this == &other) return *this;` is skipped)
@@ -2836,6 +2922,8 @@ def rule_alias_inplace(w):
     for fn in w.fns:
         if not re.search(SCOPE_RE, fn.file) or not re.search(CLASS_RE, fn.cls or "") or fn.d.get("ctor") or fn.body is None:
             continue
+        if w.norm.inlined.get(fn.full, 0) > 0:
+            continue          # a helper read in place of its calls is judged there (the key names the function a maintainer calls, not the helper)
         cname = (fn.cls or "").rsplit("::", 1)[-1]
         others = [p_ for p_ in fn.params if re.search(r"\b%s\b" % re.escape(cname), fn.type(p_["t"]) or "") and (fn.type(p_["t"]) or "").rstrip().endswith("&")
                   and not (fn.type(p_["t"]) or "").rstrip().endswith("&&")]
